@@ -19,7 +19,7 @@ import (
 )
 
 type c04JwtReq struct {
-	Adv   int    `json:"adv,omitempty"` // virtual milliseconds to sleep before the request
+	Adv   int64  `json:"adv,omitempty"` // virtual milliseconds to sleep before the request
 	Car   string `json:"car"`           // Bearer bearer BEARER none empty raw basic
 	Tok   c04Tok `json:"tok"`
 	Reuse int    `json:"reuse,omitempty"` // n>0: resend the Authorization value of request n-1
@@ -143,7 +143,7 @@ func c04JwtInterp(t *testing.T, c c04JwtCase) (v kit.Verdict) {
 			if rq.Adv > 0 {
 				// the runtime's virtual nanosecond clock starts at 2000-01-01 and overflows
 				// int64 about 262 years later: stay well below
-				if elapsedMs += int64(rq.Adv); elapsedMs > 200*365*86400*1000 {
+				if elapsedMs += rq.Adv; elapsedMs > 200*365*86400*1000 {
 					excluded = true
 					return
 				}
@@ -301,7 +301,7 @@ var c04Secrets = []string{"secret-current-0001", "s3cr3t-AAAAAAAA", "key-with-ü
 
 // absolute NumericDate literals: boundaries of the usual integer widths; the
 // reference verifier decides on the exact value (>= 2^60: unspecified)
-var c04AbsPast = []string{"0", "1", "-1", "127", "128", "255", "256", "32767", "32768", "65535", "65536", "1e3", "946684799"}
+var c04AbsPast = []string{"0", "1", "-1", "127", "128", "255", "256", "32767", "32768", "65535", "65536", "1e3", "946684799", "-2147483648", "-2147483649", "-4294967296"}
 var c04AbsFuture = []string{"2147483647", "2147483648", "4294967295", "4294967296", "9007199254740991", "9007199254740993",
 	"253402300799", "253402300800", "1e15", "2147483647.5"}
 var c04AbsHuge = []string{"1152921504606846976", "4611686018427387904", "9223372036854775807", "9223372036854775808", "1e19", "1e30",
@@ -422,9 +422,9 @@ func c04GenCarrier(rt *rapid.T) string {
 	return rapid.SampledFrom([]string{"Bearer", "Bearer", "Bearer", "Bearer", "Bearer", "Bearer", "Bearer", "Bearer", "bearer", "BEARER", "none", "empty", "raw", "basic"}).Draw(rt, "car")
 }
 
-func c04GenAdv(rt *rapid.T) int {
-	return rapid.SampledFrom([]int{0, 0, 0, 0, 1, 500, 1000, 1000, 2000, 61000, 3600 * 1000, 25 * 3600 * 1000,
-		30 * 86400 * 1000, 100 * 365 * 86400 * 1000}).Draw(rt, "adv")
+func c04GenAdv(rt *rapid.T) int64 {
+	return rapid.SampledFrom([]int64{0, 0, 0, 0, 1, 500, 1000, 1000, 2000, 61000, 3600 * 1000, 25 * 3600 * 1000,
+		30 * 86400 * 1000, 100 * 365 * 86400 * 1000, 1<<31 - 1, 1 << 31, 1 << 32}).Draw(rt, "adv")
 }
 
 func c04JwtGen(rt *rapid.T) c04JwtCase {
